@@ -304,18 +304,24 @@ def check_multi_tag(mtag):
     errors = check_entity(mtag)
     warnings = list()
 
-    if not mtag.positions:
+    try:
+        positions = mtag.positions
+    except RuntimeError:
+        # the link to the positions array is missing
+        positions = None
+    if positions is None or not positions:
         errors.append(ValidationError.NoPositions)
     if mtag.references:
-        if len(mtag.positions.shape) == 1:
-            posdim = 1
-        else:
-            posdim = mtag.positions.shape[1]
-        # New error for len(mtag.positions.shape) > 2
-        if any(posdim != len(da.shape) for da in mtag.references):
-            errors.append(ValidationError.PositionsDimensionMismatch)
+        if positions is not None:
+            if len(positions.shape) == 1:
+                posdim = 1
+            else:
+                posdim = positions.shape[1]
+            # New error for len(mtag.positions.shape) > 2
+            if any(posdim != len(da.shape) for da in mtag.references):
+                errors.append(ValidationError.PositionsDimensionMismatch)
         if mtag.extents:
-            if mtag.positions.shape != mtag.extents.shape:
+            if positions is not None and positions.shape != mtag.extents.shape:
                 errors.append(ValidationError.PositionsExtentsMismatch)
             if len(mtag.extents.shape) == 1:
                 extdim = 1
